@@ -2448,3 +2448,115 @@ def gen_loops():
         'end Opy.Gen']), 1)
     data['hidden_state'] = hs
     return texts, data
+
+
+# ------------------------------------------------------------------ TreeSpace._create_trees / _create_terminals
+def read_trees(fn):
+    F = dict(guardIsGrowDefault=False, listKind='.other', elemIsGrowCall=False, countIsNTrees=False, bestIsDeepCopyOfFirst=False,
+             returnsPair=False, extraStmts=0)
+    if fn is None:
+        F['extraStmts'] = 1
+        return _show(F)
+    stmts = [s for s in body_of(fn) if not (isinstance(s, ast.Expr) and isinstance(s.value, ast.Call) and ast.unparse(s.value.func).startswith('logger.'))]
+    # the `algorithm` parameter and its default
+    params = [a.arg for a in fn.args.args]
+    dflt = None
+    if len(params) == 2 and len(fn.args.defaults) == 1 and isinstance(fn.args.defaults[0], ast.Constant):
+        dflt = (params[1], fn.args.defaults[0].value)
+    trees = best = None
+
+    def list_stmt(st):
+        nonlocal trees
+        tgt = st.targets[0].id if isinstance(st, ast.Assign) and len(st.targets) == 1 and isinstance(st.targets[0], ast.Name) else None
+        v = getattr(st, 'value', None)
+        if tgt and trees is None and isinstance(v, ast.ListComp) and len(v.generators) == 1 and not v.generators[0].ifs \
+                and isinstance(v.generators[0].iter, ast.Call) and ast.unparse(v.generators[0].iter.func) == 'range' and len(v.generators[0].iter.args) == 1:
+            trees = tgt
+            F['listKind'] = '.comprehension'
+            F['elemIsGrowCall'] = ' '.join(ast.unparse(v.elt).split()) == 'self.grow(self.min_depth, self.max_depth)'
+            F['countIsNTrees'] = ast.unparse(v.generators[0].iter.args[0]) == 'self.n_trees'
+            return True
+        if tgt and trees is None and isinstance(v, ast.BinOp) and isinstance(v.op, ast.Mult) and isinstance(v.left, ast.List) and len(v.left.elts) == 1:
+            trees = tgt
+            F['listKind'] = '.repeated'
+            F['elemIsGrowCall'] = ' '.join(ast.unparse(v.left.elts[0]).split()) == 'self.grow(self.min_depth, self.max_depth)'
+            F['countIsNTrees'] = ast.unparse(v.right) == 'self.n_trees'
+            return True
+        return False
+    for st in stmts:
+        v = getattr(st, 'value', None)
+        tgt = st.targets[0].id if isinstance(st, ast.Assign) and len(st.targets) == 1 and isinstance(st.targets[0], ast.Name) else None
+        if isinstance(st, ast.If) and trees is None and not st.orelse and dflt is not None \
+                and ' '.join(ast.unparse(st.test).split()) in (f"{dflt[0]} == {dflt[1]!r}", f"{dflt[1]!r} == {dflt[0]}") and len(st.body) == 1 and list_stmt(st.body[0]):
+            F['guardIsGrowDefault'] = True
+        elif trees is None and list_stmt(st):
+            # built unconditionally: the same as under a guard that the default satisfies
+            F['guardIsGrowDefault'] = True
+        elif tgt and trees and best is None and ast.unparse(v) == f'copy.deepcopy({trees}[0])':
+            best = tgt
+            F['bestIsDeepCopyOfFirst'] = True
+        elif isinstance(st, ast.Return) and trees and best and st.value is not None and ast.unparse(st.value) in (f'({trees}, {best})', f'{trees}, {best}'):
+            F['returnsPair'] = True
+        else:
+            F['extraStmts'] += 1
+    return _show(F)
+
+
+def read_terminals(fn):
+    F = dict(listKind='.other', elemIsAgentCtor=False, countIsNAgents=False, bestIsDeepCopyOfFirst=False, returnsPair=False, extraStmts=0)
+    if fn is None:
+        F['extraStmts'] = 1
+        return _show(F)
+    stmts = [s for s in body_of(fn) if not (isinstance(s, ast.Expr) and isinstance(s.value, ast.Call) and ast.unparse(s.value.func).startswith('logger.'))]
+    ctor_forms = ('Agent(n_variables=self.n_variables, n_dimensions=self.n_dimensions)', 'Agent(self.n_variables, self.n_dimensions)',
+                  'Agent(n_dimensions=self.n_dimensions, n_variables=self.n_variables)')
+    lst = None
+    returned = False
+    for st in stmts:
+        tgt = st.targets[0].id if isinstance(st, ast.Assign) and len(st.targets) == 1 and isinstance(st.targets[0], ast.Name) else None
+        v = getattr(st, 'value', None)
+        if isinstance(st, ast.Return) and lst is None and isinstance(v, (ast.ListComp, ast.BinOp)):
+            # `return [ … ]` directly
+            st = ast.Assign(targets=[ast.Name(id='__list__', ctx=ast.Store())], value=v)
+            tgt = '__list__'
+            returned = True
+        if tgt and lst is None and isinstance(v, ast.ListComp) and len(v.generators) == 1 and not v.generators[0].ifs \
+                and isinstance(v.generators[0].iter, ast.Call) and ast.unparse(v.generators[0].iter.func) == 'range' and len(v.generators[0].iter.args) == 1:
+            lst = tgt
+            F['listKind'] = '.comprehension'
+            F['elemIsAgentCtor'] = ' '.join(ast.unparse(v.elt).split()) in ctor_forms
+            F['countIsNAgents'] = ast.unparse(v.generators[0].iter.args[0]) == 'self.n_terminals'
+        elif tgt and lst is None and isinstance(v, ast.BinOp) and isinstance(v.op, ast.Mult) and isinstance(v.left, ast.List) and len(v.left.elts) == 1:
+            lst = tgt
+            F['listKind'] = '.repeated'
+            F['elemIsAgentCtor'] = ' '.join(ast.unparse(v.left.elts[0]).split()) in ctor_forms
+            F['countIsNAgents'] = ast.unparse(v.right) == 'self.n_terminals'
+        elif isinstance(st, ast.Return) and lst and not returned and v is not None and ast.unparse(v) == lst:
+            returned = True
+        else:
+            F['extraStmts'] += 1
+    if not returned:
+        F['extraStmts'] += 1
+    return _show(F)
+
+
+_old_gen_loops17 = gen_loops
+
+
+def gen_loops():
+    texts, data = _old_gen_loops17()
+    tp = f'{REPO}/opytimizer/spaces/tree.py'
+    tr = read_trees(find_method(tp, 'TreeSpace', '_create_trees'))
+    tm = read_terminals(find_method(tp, 'TreeSpace', '_create_terminals'))
+    texts['TreesDefs'] = '\n'.join(['-- GENERATED by harness/translate_loops.py from TreeSpace._create_trees and TreeSpace._create_terminals. Do not edit.',
+                                    'import OpyVerif.Model.TreesProg', 'namespace Opy.Gen', 'open Opy', '',
+                                    f'def treesProg : TreesProg := {tr}', f'def terminalsProg : CreateProg := {tm}', '', 'end Opy.Gen', ''])
+    texts['Trees'] = '\n'.join(['-- GENERATED by harness/translate_loops.py: obligations re-decided on every build. Do not edit.',
+                                'import OpyVerif.Generated.TreesDefs', 'namespace Opy.Gen', 'open Opy',
+                                '/-- `TreeSpace._create_trees` grows `n_trees` trees one after the other and copies the first as best tree -/',
+                                'theorem treesProg_eq : treesProg = Expected.treesProg := by decide +kernel',
+                                '/-- `TreeSpace._create_terminals` builds `n_terminals` separate agents -/',
+                                'theorem terminalsProg_eq : terminalsProg = Expected.terminalsProg := by decide +kernel',
+                                'end Opy.Gen', ''])
+    data['trees'] = dict(trees=tr, terminals=tm)
+    return texts, data
